@@ -198,6 +198,7 @@ func cmdRun(args []string) int {
 	verbose := fs.Bool("v", false, "per-job output")
 	only := fs.String("only", "", "only jobs whose description contains this text")
 	cpuprof := fs.String("cpuprofile", "", "write cpu profile")
+	dump := fs.String("dump", "", "write every violation (unreplayed) as JSON lines to this file")
 	fs.Parse(args)
 	if t := os.Getenv("VERIF_TIER"); t != "" && (t == "quick" || t == "thorough") {
 		// the command line wins; the env only applies when the flag is default
@@ -258,6 +259,15 @@ func cmdRun(args []string) int {
 		funcs   map[*ssa.Function]bool
 		domq    int
 		err     error
+	}
+	known := loadKnown()
+	isKnown := func(v *Violation) bool {
+		for ki := range known {
+			if known[ki].matches(spec.ID, v) {
+				return true
+			}
+		}
+		return false
 	}
 	type workItem struct {
 		job  *Job
@@ -344,7 +354,7 @@ func cmdRun(args []string) int {
 					qcond.Signal()
 					return true
 				}
-				res := in.Explore(item.job, setup, run, lim, item.base, donate)
+				res := in.Explore(item.job, setup, run, lim, item.base, donate, isKnown)
 				outs[w].results = append(outs[w].results, res)
 				qmu.Lock()
 				pending--
@@ -388,7 +398,6 @@ func cmdRun(args []string) int {
 	}
 	sort.Slice(all, func(a, b int) bool { return all[a].Job.String() < all[b].Job.String() })
 
-	known := loadKnown()
 	paths, decisions, assumeEnds := 0, 0, 0
 	var steps int64
 	covers := map[string]int{}
@@ -417,6 +426,14 @@ func cmdRun(args []string) int {
 		}
 	}
 
+	if *dump != "" {
+		f, _ := os.Create(*dump)
+		for _, v := range viols {
+			b, _ := json.Marshal(map[string]any{"kind": v.Kind, "msg": v.Msg, "harness": v.Witness.Harness, "params": v.Witness.Params, "inputs": v.Witness.Describe()})
+			f.Write(append(b, '\n'))
+		}
+		f.Close()
+	}
 	// classify violations
 	knownSeen := map[int]int{}
 	var fresh []*Violation
